@@ -100,6 +100,8 @@ pub struct Sub {
     /// The UNSUBSCRIBE that ended it came in a batch that had already
     /// appended a message matching this subscription.
     pub unsub_after_same_batch_match: bool,
+    /// Granted QoS over time: (number of accepted publishes when granted, QoS).
+    pub qos_hist: Vec<(usize, u8)>,
 }
 
 #[derive(Clone, Debug, PartialEq, Eq)]
@@ -212,6 +214,25 @@ pub fn extract_group(path: &str) -> Option<(String, String)> {
 pub enum Effect {
     /// The broker must close this connection now (rule name).
     Close(usize, &'static str),
+}
+
+impl Sub {
+    /// May a forward of accepted message `m` on this subscription carry
+    /// `qos`? Yes if that QoS was the granted one at some moment at or after
+    /// the message was accepted (it may have been forwarded any time since).
+    pub fn qos_ok_for(&self, m: usize, qos: u8) -> bool {
+        for (i, (_, q)) in self.qos_hist.iter().enumerate() {
+            if *q != qos {
+                continue;
+            }
+            match self.qos_hist.get(i + 1) {
+                None => return true,
+                Some((t_next, _)) if *t_next > m => return true,
+                _ => {}
+            }
+        }
+        false
+    }
 }
 
 impl Spec {
@@ -496,6 +517,7 @@ impl Spec {
                                     s.old_qos = Some(s.qos);
                                 }
                                 s.qos = *qos;
+                                s.qos_hist.push((t0, *qos));
                             }
                             if sub_id.is_some() {
                                 s.sub_id = *sub_id;
@@ -516,6 +538,7 @@ impl Spec {
                                 retained_seen: Vec::new(),
                                 first_live_seen: false,
                                 unsub_after_same_batch_match: false,
+                                qos_hist: vec![(t0, *qos)],
                             });
                             for pv in self.conns[c].posvecs.iter_mut() {
                                 pv.pos.push(pos);
